@@ -82,10 +82,29 @@ func execC01Net(t *testing.T, c C01Net) (v Verdict) {
 		}()
 	}
 	wg.Wait()
+	want := map[string]int{}
+	for _, p := range c.Reqs {
+		want[kit.Digest(p.Bytes())]++
+	}
 	if ctx.Err() != nil {
+		// The budget is spent: no verdict can rest on what did not happen in time. What did happen can still be wrong
+		// whatever the machine's speed: a handler run for a request nobody sent, or more runs than callers.
+		mu.Lock()
+		for k, n := range runs {
+			if want[k] == 0 {
+				v.failf("%s: the handler received a request (%s) that no caller sent: bytes changed in transit", c.Transport, k)
+			} else if n > want[k] {
+				v.failf("%s: the handler ran %d times for request %s, only %d callers sent it", c.Transport, n, k, want[k])
+			}
+		}
+		mu.Unlock()
+		if v.Fail != "" {
+			v.Info = kit.CaseInfo{Labels: []string{"net." + c.Transport}, NonTrivial: true, Key: fmt.Sprintf("%+v", c)}
+			return
+		}
 		inconclusive(t, "%s: unary calls over loopback exceeded %v", c.Transport, netBudget)
 	}
-	want := map[string]int{}
+	want = map[string]int{}
 	for i, p := range c.Reqs {
 		req := p.Bytes()
 		want[kit.Digest(req)]++
